@@ -135,6 +135,7 @@ func (w c14World) canon() string {
 
 // abstract (model-only) state used to pre-compute which ops are enabled
 type c14Abs struct {
+	max     int // stash capacity
 	stashes int
 	flushed [c14MaxStash]bool
 }
@@ -142,7 +143,7 @@ type c14Abs struct {
 func (s *c14Abs) enabled(o c14Op) bool {
 	switch o.K {
 	case "snap":
-		return s.stashes < c14MaxStash
+		return s.stashes < s.max
 	case "reset", "flush", "fork":
 		return o.I < s.stashes
 	case "reload":
@@ -302,8 +303,8 @@ func (in *c14Inst) observeSnapshot(what string, wss WorldSnapshot, m c14World) {
 
 type c14Table struct {
 	mu      sync.Mutex
-	byModel map[string]string // canon -> hash hex
-	byHash  map[string]string // hash hex -> canon
+	byModel map[string]string  // canon -> hash hex
+	byHash  map[string]string  // hash hex -> canon
 	witness map[string][]c14Op // canon -> first history
 }
 
@@ -414,7 +415,7 @@ func c14Hist(h []c14Op) string {
 
 // c14Run replays hist on a fresh real instance, then observes. ok=false when
 // the last op is not enabled.
-func c14Run(r *ev.Run, t *c14Table, hist []c14Op, nviol *int64) (key string, ok bool) {
+func c14Run(r *ev.Run, t *c14Table, hist []c14Op, maxStash int, nviol *int64) (key string, ok bool) {
 	hs := c14Hist(hist)
 	var in *c14Inst
 	fail := func(sig, detail string) {
@@ -422,6 +423,7 @@ func c14Run(r *ev.Run, t *c14Table, hist []c14Op, nviol *int64) (key string, ok 
 		r.Violation(sig, detail+"\nhistory: "+hs, c14Case{Hist: hist, Witness: in.wit})
 	}
 	in = newC14Inst(fail)
+	in.abs.max = maxStash
 	enabled := true
 	if p := ev.Catch(func() {
 		for _, o := range hist {
@@ -446,48 +448,16 @@ func c14Run(r *ev.Run, t *c14Table, hist []c14Op, nviol *int64) (key string, ok 
 
 // ---------------------------------------------------------------- test
 
-func TestVerifC14(t *testing.T) {
-	r := ev.Start(t, "C14", "model_checking")
-	r.Rule("engine A: BFS over histories of ops {SetBalance(a|b,0..2), SetValue(a|b,k1|k2,''|u|w), DeleteValue, InitContractAccount(b), GetAccountState(touch), GetSnapshot(stash<=3), Reset(i), ClearCache, Flush(i), Reload(i)=NewWorldState(db,hash_i), Fork(i)=WorldStateFromSnapshot} with dedup on (live model, stash models+flushed flags, per-account bookkeeping flags of worldStateImpl); engine B: every enabled op sequence of fixed length over a 10+4*stashes-op reduced alphabet without dedup; each history is replayed on a fresh real world state and observed once at its end (all stashed snapshots, live, fresh snapshot, flushed+reloaded snapshot, read-only view) against the model; a global table logical-state <-> hash is filled across all histories; non-trivial = (A) a history of >=3 ops that reaches a not yet seen state, (B) a sequence containing at least one GetSnapshot; distinct by history")
-	r.Assume(
-		"model: account -> (balance, k1, k2, contract flag); an account with zero balance, no values and no contract flag is empty",
-		"AccountState handles are re-fetched with GetAccountState for every operation (handles are not kept across ClearCache)",
-		"validators, extension and BTP parts of the world state are nil/empty; deposits, contract deployment, object graphs are not exercised",
-		"observation perturbs caches, therefore it is done only at the end of each history; every prefix of an explored history is explored as a history of its own")
-
-	tbl := &c14Table{byModel: map[string]string{}, byHash: map[string]string{}, witness: map[string][]c14Op{}}
-	var nviol int64
-
-	if ev.Replaying() {
-		var c c14Case
-		ev.ReplayCase(&c)
-		// fill the table with the canonical hashes of the states involved: replay all prefixes first
-		for n := 0; n <= len(c.Witness); n++ {
-			c14Run(r, tbl, c.Witness[:n], &nviol)
-		}
-		for n := 0; n <= len(c.Hist); n++ {
-			c14Run(r, tbl, c.Hist[:n], &nviol)
-		}
-		r.States(1)
-		r.Transitions(1)
-		r.Traces(len(c.Hist) + 1)
-		r.Sample(c)
-		r.Finish(false)
-		return
-	}
-
-	var traces, transitions int64
-	// ------------------------------------------------ engine A
-	alpha := c14FullAlphabet()
-	depthA := r.Pick(4, 6)
+// c14BFS: breadth-first search with dedup on c14Inst.key(); each transition
+// re-creates the state by replaying its history on a fresh real instance.
+func c14BFS(r *ev.Run, tbl *c14Table, alpha []c14Op, maxStash, maxDepth int, nviol *int64) (states int, transitions, traces int64, depthDone int, perDepth []int, sample [][]c14Op) {
 	seen := map[string]struct{}{}
-	k0, _ := c14Run(r, tbl, nil, &nviol)
+	k0, _ := c14Run(r, tbl, nil, maxStash, nviol)
 	traces++
 	seen[k0] = struct{}{}
 	frontier := [][]c14Op{nil}
-	depthDoneA := 0
-	statesPerDepth := []int{1}
-	for depth := 0; depth < depthA && len(frontier) > 0 && !r.Expired(); depth++ {
+	perDepth = []int{1}
+	for depth := 0; depth < maxDepth && len(frontier) > 0 && !r.Expired(); depth++ {
 		type res struct {
 			key string
 			ok  bool
@@ -505,7 +475,7 @@ func TestVerifC14(t *testing.T) {
 			}
 			h := frontier[i/len(alpha)]
 			nh := append(append(make([]c14Op, 0, len(h)+1), h...), alpha[i%len(alpha)])
-			k, ok := c14Run(r, tbl, nh, &nviol)
+			k, ok := c14Run(r, tbl, nh, maxStash, nviol)
 			out[i] = res{k, ok}
 		})
 		if expired != 0 {
@@ -529,17 +499,78 @@ func TestVerifC14(t *testing.T) {
 			}
 		}
 		frontier = next
-		depthDoneA = depth + 1
-		statesPerDepth = append(statesPerDepth, len(next))
+		depthDone = depth + 1
+		perDepth = append(perDepth, len(next))
+		if len(next) > 0 {
+			sample = [][]c14Op{next[len(next)/2], next[len(next)/3]}
+		}
 	}
-	statesA := len(seen)
-	if len(frontier) > 0 {
-		r.Sample(map[string]interface{}{"engine": "A", "history": c14Hist(frontier[len(frontier)/2])})
-		r.Sample(map[string]interface{}{"engine": "A", "history": c14Hist(frontier[len(frontier)/3])})
+	return len(seen), transitions, traces, depthDone, perDepth, sample
+}
+
+func TestVerifC14(t *testing.T) {
+	r := ev.Start(t, "C14", "model_checking")
+	r.Rule("engine A: BFS over histories of ops {SetBalance(a|b,0..2), SetValue(a|b,k1|k2,''|u|w), DeleteValue, InitContractAccount(b), GetAccountState(touch), GetSnapshot(stash<=3), Reset(i), ClearCache, Flush(i), Reload(i)=NewWorldState(db,hash_i), Fork(i)=WorldStateFromSnapshot} with dedup on (live model, stash models+flushed flags, per-account bookkeeping flags of worldStateImpl); engine B: every enabled op sequence of fixed length over a 10+4*stashes-op reduced alphabet without dedup; each history is replayed on a fresh real world state and observed once at its end (all stashed snapshots, live, fresh snapshot, flushed+reloaded snapshot, read-only view) against the model; a global table logical-state <-> hash is filled across all histories; non-trivial = (A) a history of >=3 ops that reaches a not yet seen state, (B) a sequence containing at least one GetSnapshot; distinct by history")
+	r.Assume(
+		"model: account -> (balance, k1, k2, contract flag); an account with zero balance, no values and no contract flag is empty",
+		"AccountState handles are re-fetched with GetAccountState for every operation (handles are not kept across ClearCache)",
+		"validators, extension and BTP parts of the world state are nil/empty; deposits, contract deployment, object graphs are not exercised",
+		"observation perturbs caches, therefore it is done only at the end of each history; every prefix of an explored history is explored as a history of its own")
+
+	tbl := &c14Table{byModel: map[string]string{}, byHash: map[string]string{}, witness: map[string][]c14Op{}}
+	var nviol int64
+
+	if ev.Replaying() {
+		var c c14Case
+		ev.ReplayCase(&c)
+		// fill the table with the canonical hashes of the states involved: replay all prefixes first
+		for n := 0; n <= len(c.Witness); n++ {
+			c14Run(r, tbl, c.Witness[:n], c14MaxStash, &nviol)
+		}
+		for n := 0; n <= len(c.Hist); n++ {
+			c14Run(r, tbl, c.Hist[:n], c14MaxStash, &nviol)
+		}
+		r.States(1)
+		r.Transitions(1)
+		r.Traces(len(c.Hist) + 1)
+		r.Sample(c)
+		r.Finish(false)
+		return
+	}
+
+	var traces, transitions int64
+	// ------------------------------------------------ engine A (two alphabets)
+	type bfsCfg struct {
+		name     string
+		alpha    []c14Op
+		maxStash int
+		depth    int
+	}
+	bfsCfgs := []bfsCfg{
+		{"full", c14FullAlphabet(), c14MaxStash, r.Pick(4, 5)},
+		{"reduced", c14ReducedAlphabet(2), 2, r.Pick(8, 10)},
+	}
+	statesA := 0
+	allDepthsDone := true
+	for _, bc := range bfsCfgs {
+		st, tr, tc, depthDone, perDepth, sample := c14BFS(r, tbl, bc.alpha, bc.maxStash, bc.depth, &nviol)
+		statesA += st
+		transitions += tr
+		traces += tc
+		r.Set("engineA_"+bc.name+"_alphabet", len(bc.alpha))
+		r.Set("engineA_"+bc.name+"_depth_bound", bc.depth)
+		r.Set("engineA_"+bc.name+"_depth_completed", depthDone)
+		r.Set("engineA_"+bc.name+"_new_states_per_depth", perDepth)
+		if depthDone < bc.depth && perDepth[len(perDepth)-1] != 0 {
+			allDepthsDone = false
+		}
+		for _, h := range sample {
+			r.Sample(map[string]interface{}{"engine": "A-" + bc.name, "history": c14Hist(h)})
+		}
 	}
 
 	// ------------------------------------------------ engine B
-	lenB := r.Pick(5, 6)
+	lenB := r.Pick(4, 6)
 	stashesB := 2
 	alphaB := c14ReducedAlphabet(stashesB)
 	var seqs [][]c14Op
@@ -550,7 +581,7 @@ func TestVerifC14(t *testing.T) {
 			return
 		}
 		for _, o := range alphaB {
-			if !abs.enabled(o) || (o.K == "snap" && abs.stashes >= stashesB) {
+			if !abs.enabled(o) {
 				continue
 			}
 			na := abs
@@ -558,7 +589,7 @@ func TestVerifC14(t *testing.T) {
 			gen(append(prefix, o), na)
 		}
 	}
-	gen(nil, c14Abs{})
+	gen(nil, c14Abs{max: stashesB})
 	var doneB int64
 	var expiredB int32
 	ev.Par(len(seqs), 16, func(i int) {
@@ -576,7 +607,7 @@ func TestVerifC14(t *testing.T) {
 			if n < lenB && !c14FirstExtension(seqs, i, n) {
 				continue
 			}
-			if _, ok := c14Run(r, tbl, seqs[i][:n], &nviol); ok {
+			if _, ok := c14Run(r, tbl, seqs[i][:n], stashesB, &nviol); ok {
 				atomic.AddInt64(&doneB, 1)
 			}
 		}
@@ -597,9 +628,6 @@ func TestVerifC14(t *testing.T) {
 	r.States(statesA)
 	r.Transitions(int(transitions))
 	r.Traces(int(traces))
-	r.Set("engineA_depth_completed", depthDoneA)
-	r.Set("engineA_new_states_per_depth", statesPerDepth)
-	r.Set("engineA_alphabet", len(alpha))
 	r.Set("engineB_sequence_length", lenB)
 	r.Set("engineB_alphabet", len(alphaB))
 	r.Set("engineB_sequences", len(seqs))
@@ -616,7 +644,7 @@ func TestVerifC14(t *testing.T) {
 	r.Sanity(len(cs) > 50, "hash table has only %d logical states", len(cs))
 	r.Sanity(len(tbl.byModel) == len(tbl.byHash) || nviol > 0, "table sizes differ without a violation")
 	r.Sanity(statesA > 100, "engine A reached only %d states", statesA)
-	exhaustive := expiredB == 0 && depthDoneA == depthA
+	exhaustive := expiredB == 0 && allDepthsDone
 	r.Finish(exhaustive)
 }
 
